@@ -58,10 +58,13 @@ def inf : Float := Float.ofBits 0x7FF0000000000000
 def predLine {ι : Type} (jll : ι → List Float → Float) (st : List (Nat × ι)) (qs : List (List Float)) : String :=
   let st := sortByLabel st
   let preds := qs.map fun x => ((nbPredict jll st x).map toString).getD "none"
+  -- relative margin: gap between best and second best over `1 + |best|` (scores can be huge when a
+  -- smoothed variance is tiny, so an absolute gap says nothing about the rounding noise)
   let margin := qs.foldl (fun m x =>
-    match scoreMargin (st.map fun ci => (ci.1, jll ci.2 x)) with
-    | none => m
-    | some g => if g < m then g else m) inf
+    let sc := st.map fun ci => (ci.1, jll ci.2 x)
+    match scoreMargin sc, argmaxScore sc with
+    | some g, some b => let r := g / (1.0 + b.2.abs); if r < m then r else m
+    | _, _ => m) inf
   s!"ok pred={",".intercalate preds} margin={tF margin}"
 
 def handleGnbPred (toks : List String) : Option String := do
@@ -80,15 +83,23 @@ def handleMnbPred (toks : List String) : Option String := do
   | none => some "err"
   | some sts => some (predLine mnbJll (sts.getLastD []) qs)
 
+def parseMetric (toks : List String) : Option Metric :=
+  match arg toks "m" with
+  | some "l2" => some .l2
+  | some "l1" => some .l1
+  | some "linf" => some .linf
+  | _ => none
+
 def handleKm (toks : List String) : Option String := do
   let tol ← argF64 toks "tol"
+  let m ← parseMetric toks
   let c0 ← argF64s2 toks "c0"
   let xs ← (arg toks "x").bind (parseList3 parseF64)
   if c0.isEmpty then none else
   let init : KState Float := { centroids := c0, counts := c0.map fun _ => 0 }
-  let rs := kmRun tol init xs
-  let parts := rs.map fun (s, conv) =>
-    s!"cs={showList2 showF64c s.centroids}/cnt={showList showF64c s.counts}/conv={if conv then 1 else 0}"
+  let rs := kmRunBy m tol init xs
+  let parts := rs.map fun (s, conv, inertia) =>
+    s!"cs={showList2 showF64c s.centroids}/cnt={showList showF64c s.counts}/conv={if conv then 1 else 0}/in={tF inertia}"
   some ("ok " ++ " ".intercalate parts)
 
 def parseHp (toks : List String) : Option (FtrlHp Float) := do
@@ -109,9 +120,17 @@ def handleFtrlUpdate (toks : List String) : Option String := do
   if z.length != n.length || probs.length != xs.length || ys.length != xs.length then none else
   let st : FState Float := ⟨z, n⟩
   let g := ftrlGradient z.length probs xs (ys.map (· != 0))
-  some ("ok " ++ showF hp (ftrlUpdate hp st g))
+  some (s!"ok w0={showList tF (ftrlWeights hp st)} " ++ showF hp (ftrlUpdate hp st g))
 
 def r32 (v : Float) : Float := v.toFloat32.toFloat
+
+/-- `Ftrl::predict` of a given state: `Pr(f32)` values widened to f64 -/
+def handleFtrlPred (toks : List String) : Option String := do
+  let hp ← parseHp toks
+  let z ← argF64s toks "z"; let n ← argF64s toks "n"
+  let xs ← argF64s2 toks "x"
+  if z.length != n.length then none else
+  some ("ok p=" ++ showList tF (ftrlProbs 35.0 r32 hp ⟨z, n⟩ xs))
 
 def handleFtrlFit (toks : List String) : Option String := do
   let hp ← parseHp toks
@@ -135,6 +154,7 @@ def handle (toks : List String) : String :=
     | "km" :: rest => handleKm rest
     | "ftrl_update" :: rest => handleFtrlUpdate rest
     | "ftrl_fit" :: rest => handleFtrlFit rest
+    | "ftrl_pred" :: rest => handleFtrlPred rest
     | _ => none
   r.getD "bad-op"
 
